@@ -27,8 +27,10 @@ def cat(inputs, dim=0, output_device=None):
         # Dont form a CatLinearOperator if all tensors are DenseLinearOperator
         return to_linear_operator(torch.cat([to_dense(i) for i in inputs], dim=dim))
 
-    if output_device is None and all(i.device == inputs[0].device for i in inputs):
-        output_device = inputs[0].device
+    # operators without tensor arguments (e.g. an IdentityLinearOperator built without a device) report device None
+    devices = {i.device for i in inputs if i.device is not None}
+    if output_device is None and len(devices) <= 1:
+        output_device = devices.pop() if devices else None
     elif output_device is None:
         raise RuntimeError("Trying to concat lazy tensors on different devices without specifying an output device.")
 
